@@ -121,6 +121,21 @@ def mid_logic(clk, a, b, y, z, hier):
     def mid_conc():
         z.next = t & a
 
+def mid_inline_logic(a, b, y, hier):
+    if hier:
+        @std.concurrent
+        def mid_inline():
+            LeafXor(a=a, b=b, y=y)
+    else:
+        leaf_xor(a, b, y)
+
+class MidInline(Entity):
+    a = Port.input(Bit)
+    b = Port.input(Bit)
+    y = Port.output(Bit)
+    def architecture(self):
+        mid_inline_logic(self.a, self.b, self.y, True)
+
 class Mid(Entity):
     clk = Port.input(Bit)
     a = Port.input(Bit)
@@ -193,6 +208,12 @@ def designs():
         [("leafiovec", dict(iov="self.iov.unsigned", y="self.oc"))])
     add("io-twice", lambda h: SIG4 + [inst(h, *IO, dict(d="self.i[0]", io="self.io", q="t0")), inst(h, *IO, dict(d="self.i[1]", io="self.io", q="t1"))] + PUB2,
         [("leafio", dict(d="self.i[0]", io="self.io", q="t0")), ("leafio", dict(d="self.i[1]", io="self.io", q="t1"))])
+    # an instance created inside a context of a NON-top entity (the instance belongs to that entity)
+    add("inline-in-mid", lambda h: ["MidInline(a=self.i[0], b=self.i[1], y=self.ob)" if h else "mid_inline_logic(self.i[0], self.i[1], self.ob, False)"],
+        [("midinline", dict(a="self.i[0]", b="self.i[1]", y="self.ob"))])
+    add("inline-in-mid-twice", lambda h: SIG4 + (["MidInline(a=self.i[0], b=self.i[1], y=t0)", "MidInline(a=self.i[2], b=self.j[0], y=t1)"] if h else
+                                                 ["mid_inline_logic(self.i[0], self.i[1], t0, False)", "mid_inline_logic(self.i[2], self.j[0], t1, False)"]) + PUB2,
+        [("midinline", dict(a="self.i[0]", b="self.i[1]", y="t0")), ("midinline", dict(a="self.i[2]", b="self.j[0]", y="t1"))])
     add("single-fsm", lambda h: [inst(h, *FSM, dict(clk="self.clk", go="self.i[0]", pulse="self.ob", cnt="self.oc"))],
         [("leaffsm", dict(clk="self.clk", go="self.i[0]", pulse="self.ob", cnt="self.oc"))])
     # same template twice / four times on bit actuals (each instance drives its own signal: cohdl rejects two instances
@@ -550,6 +571,58 @@ def todir_check(run):
         unload_module(mod)
 
 
+EXTERN_SRC = HDR + """
+class Fifo(Entity, extern=True):
+    d = Port.input(Bit)
+    q = Port.output(Bit)
+
+class Sync(Entity, extern=True, attributes={"path": "vendor"}):
+    d = Port.input(Bit)
+    q = Port.output(Bit)
+
+class Wrap(Entity):
+    d = Port.input(Bit)
+    q = Port.output(Bit)
+    def architecture(self):
+        t = Signal[Bit](name="t")
+        Fifo(d=self.d, q=t)
+        Sync(d=t, q=self.q)
+
+class T(Entity):
+    d = Port.input(Bit)
+    q = Port.output(Bit)
+    r = Port.output(Bit)
+    def architecture(self):
+        Wrap(d=self.d, q=self.q)
+        Fifo(d=self.d, q=self.r)
+"""
+
+
+def extern_check(run):
+    """extern entities are instantiated but never emitted (neither as entity declarations nor as files)"""
+    from cohdl import std
+
+    mod = load_module(EXTERN_SRC)
+    d = tempfile.mkdtemp(prefix="verif_c12_")
+    try:
+        text = std.VhdlCompiler.to_string(mod.T)
+        units = P.parse(text)
+        ents = [u.name for u in units if isinstance(u, P.Entity)]
+        run.count("extern_designs", 1)
+        if ents != ["wrap", "t"]:
+            run.violation("extern/entities", f"design with extern entities Fifo and Sync: emitted entities {ents}, expected ['wrap', 't'] "
+                                             f"(extern entities are not part of the output)")
+        insts = sorted(s_.entity for u in units if isinstance(u, P.Architecture) for s_ in u.stmts if isinstance(s_, P.Instance))
+        if insts != ["fifo", "fifo", "sync", "wrap"]:
+            run.violation("extern/instances", f"instantiated entities {insts}, expected ['fifo', 'fifo', 'sync', 'wrap']")
+        files = sorted(os.path.basename(f) for f in std.VhdlCompiler.to_dir(mod.T, d))
+        if files != ["T.vhd", "Wrap.vhd"]:
+            run.violation("extern/files", f"to_dir wrote {files}, expected ['T.vhd', 'Wrap.vhd']")
+    finally:
+        shutil.rmtree(d, True)
+        unload_module(mod)
+
+
 def main(run: Run):
     nfixed = len(designs())
     ngen = len(all_designs()) - nfixed
@@ -587,6 +660,7 @@ def main(run: Run):
         if not r["problems"]:
             run.sample({"tree": r["name"], "states": r.get("states"), "entities": r.get("entities")})
     todir_check(run)
+    extern_check(run)
     if run.counters.get("designs_ok", 0) < n * 0.7:
         run.tool_error("vacuous: too many instantiation trees rejected")
     run.assume("flat rendering calls the very same logic function on the same actuals; equivalence is checked by vsim on both texts")
